@@ -17,7 +17,7 @@ RULE = ("random un-canted shots x look angle {0, +-0.5, +-5, +-30, +-45, +-59 de
         "line reaches are judged; a case = (shot, distance, api); non-trivial when look != 0 or a wind is present or the "
         "distance exceeds 300 yd or the stored zero is non-zero")
 MUST_OBSERVE = ["zeroings", "zeroings_judged", "fire_backs", "look_level", "look_small", "look_steep", "with_wind",
-                "stored_zero_nonzero", "api_set_weapon_zero", "api_barrel_elevation", "raises_adjudicated", "unreachable_precondition",
+                "stored_zero_nonzero", "api_set_weapon_zero", "api_barrel_elevation", "raises_adjudicated", "unreachable_precondition", "raises_with_precondition_false",
                 "failures_zero_kept_checked"]
 ASSUMPTIONS = ["'one integration step of travel' = the largest overshoot the zero finder's end condition permits: (min step + longest "
                "down-range advance of one step) / cos(trajectory angle), taken from the step trace of the fire-back; bound = accuracy + "
@@ -177,6 +177,8 @@ def check_case(ctx, case):
         ctx.case(case, nontrivial=nontrivial)
     else:
         ctx.count("failures_zero_kept_checked")
+        if not precondition_ok:
+            ctx.count("raises_with_precondition_false")
         if shot.weapon.zero_elevation.raw_value != stored_before:
             ctx.violation("failed-zeroing-changed-stored-zero", f"{type(err).__name__} raised but the weapon's stored zero changed from "
                                                                 f"{stored_before!r} to {shot.weapon.zero_elevation.raw_value!r} rad", case)
@@ -229,6 +231,11 @@ def gen_case(rng):
         d_yd = rng.choice([1000.0, 1500.0, 2500.0])       # towards the reach of the cartridge
     if s["mv_fps"] < 1200:
         d_yd = min(d_yd, 500.0)
+    if rng.random() < 0.06:     # clearly out of reach: a slow projectile, a far target high above - zeroing must raise, not return
+        s["mv_fps"] = round(rng.uniform(300, 500), 0)
+        s["look_deg"] = rng.choice([45.0, 59.0, 30.0])
+        s["bc"] = round(rng.uniform(0.05, 0.15), 3)
+        d_yd = rng.choice([600.0, 900.0])
     case = {"shot": s, "distance_ft": d_yd * 3.0, "api": rng.choice(["set_weapon_zero", "barrel_elevation"])}
     if rng.random() < 0.15:
         case["config"] = rng.choice([{"max_calc_step_size_feet": 1.0}, {"cZeroFindingAccuracy": 1e-4}, {"max_calc_step_size_feet": 0.25}])
